@@ -154,6 +154,24 @@ case("F45 var of int8 [100, -100]", lambda: groupby_reduce(np.array([100, -100],
 # F46
 case("F46 chunked var of int8", lambda: groupby_reduce(da.from_array(np.array([100, -100, 50, 20], dtype=np.int8), chunks=2), np.zeros(4, int), func="var")[0].compute().tolist(), lambda r: r == [5418.75])
 
+# F47
+case("F47 vector quantile, no requested label present", lambda: groupby_reduce(np.arange(12.).reshape(2, 6), np.full(6, 9), func="quantile", finalize_kwargs={"q": [0.25, 0.75]}, expected_groups=np.array([0, 1]), fill_value=np.nan)[0].shape, lambda r: r == (2, 2, 2))
+# F48
+def f48():
+    rng = np.random.default_rng(0)
+    a = rng.normal(size=(3, 2, 4)); by = np.array([[0, 0, 1, 1], [0, 1, 1, 5]])
+    r = groupby_reduce(a, by, func="quantile", finalize_kwargs={"q": [0.25, 0.75]}, expected_groups=np.array([0, 1, 2]), fill_value=-1.0)[0]
+    exp = np.full((2, 3, 3), -1.0)
+    for b in range(3):
+        for g in (0, 1):
+            exp[:, b, g] = np.quantile(a[b][by == g], [0.25, 0.75])
+    return r.shape == exp.shape and bool(np.allclose(r, exp))
+
+
+case("F48 vector quantile over two reduced axes with a fill", f48, lambda r: r is True)
+# F49
+case("F49 nanmedian of an all-NaN group between others", lambda: groupby_reduce(np.array([1.0, 2.0, np.nan, np.nan, 5.0, 6.0]), np.array([0, 0, 1, 1, 2, 2]), func="nanmedian")[0].tolist(), lambda r: r[0] == 1.5 and r[2] == 5.5 and r[1] != r[1])
+
 bad = 0
 for name, verdict in results:
     print(f"{name:55s} {verdict}")
